@@ -10,6 +10,7 @@ import (
 	"io/ioutil"
 	"os"
 	"path/filepath"
+	"reflect"
 	"regexp"
 	"sync"
 	"time"
@@ -397,6 +398,14 @@ func (db *DB) get(in Object) (out Object, err error) {
 	}
 
 	path = filepath.Join(db.oDir(in), s.filename(in))
+	// the file is decoded into a zero value: in may hold anything (an older
+	// copy of the object, an object used to tell the type) and the decoder
+	// leaves untouched the fields absent from the file and merges maps
+	if v := reflect.ValueOf(in); v.Kind() == reflect.Ptr && !v.IsNil() {
+		uuid := in.UUID()
+		v.Elem().Set(reflect.Zero(v.Elem().Type()))
+		in.Initialize(uuid)
+	}
 	err = unmarshalJsonFile(path, in, s.Compress)
 	out = in
 
